@@ -550,6 +550,20 @@ class SymRange:
         self.lo, self.hi = lo, hi
 
 
+class FlatOf:
+    """x.flat of an array value: the array read in C order (only: assigned to another array's .flat)."""
+
+    def __init__(self, arr):
+        self.arr = arr
+
+
+class StarredArr:
+    """*a inside a list display, for an array of symbolic length (np.array([x, *a, y]))."""
+
+    def __init__(self, arr):
+        self.arr = arr
+
+
 class EnumVal:
     """enumerate(seq) as a value (returned by a method, iterated by the caller)."""
 
